@@ -4,7 +4,7 @@
     only (proofs: Proofs/NtlmFacts.v). *)
 From Coq Require Import List NArith ZArith Bool Lia.
 From Coq.Strings Require Import Byte.
-From RDPGW Require Import Lib.Bytes Model.Ntlm Proofs.NtlmFacts.
+From RDPGW Require Import Lib.Bytes Gen.Consts Model.Ntlm Proofs.NtlmFacts.
 Import ListNotations.
 Open Scope Z_scope.
 
@@ -44,6 +44,13 @@ Theorem C14_complete : forall db st t1 t2 s u,
   snd (nstep db st1 t2 s (NAuth u (RespFor u (db u) (n_next st)))) = OAuthOK u.
 Proof. exact ntlm_complete. Qed.
 Print Assumptions C14_complete.
+
+(** The per-session contexts live for the one-minute duration (regenerated from the source). *)
+Theorem C14_source_facts :
+  ntlm_cacheExpiration_SECONDS = 60%N /\
+  hd [] NTLM_CONTEXT_CACHE_ARGS = [x63; x61; x63; x68; x65; x45; x78; x70; x69; x72; x61; x74; x69; x6f; x6e]. (* cacheExpiration *)
+Proof. split; reflexivity. Qed.
+Print Assumptions C14_source_facts.
 
 (** Non-vacuity and the named refusals on a concrete history. *)
 Definition ex_db (u : bytes) : bytes := if bytes_eqb u [x61] then [x70; x77] else [].
